@@ -95,3 +95,113 @@ theorem evalExpressions_noexpr (ev : Str → EvalResult) (sd : SD) : sd.exprs = 
     cases he
     simp [evalExpressions, evalExpressions.loop, resolveAll, evalPass, bind, Except.bind, pure, Except.pure,
       List.eraseDups]
+
+/-- the three stages of `DictReader.read` above `parse_file`, on a parsed dict with empty tables: nothing changes -/
+theorem read_stages_plain (ev : Str → EvalResult) (fs : FS) (comments : Bool) (es : Entries) (dir : Comps) (c : Counter)
+    (hp : C07.NoPhEs es) (hn : NodupKeysV (.dict es)) :
+    mergeIncludes fs comments { data := es } dir c = .ok ({ data := es }, c) ∧
+    evalExpressions ev { data := es } = .ok { data := es } :=
+  ⟨mergeIncludes_noincl fs comments { data := es } dir c rfl hp hn, evalExpressions_noexpr ev _ rfl⟩
+
+/-! ## the element-type normalisation is idempotent -/
+
+/-- a typed value stays; a string that stays a string stays (e.g. `"'1'"`: `parseValue` gives the string `"1"`, so
+    `normScalar` keeps `"'1'"`, and keeps it again) -/
+theorem normScalar_idem (x : Scalar) : normScalar (normScalar x) = normScalar x := by
+  cases x with
+  | str s =>
+    cases h : parseValue s <;> simp [normScalar, h]
+  | _ => rfl
+
+mutual
+  theorem normV_idem : ∀ v : Val, normV (normV v) = normV v
+    | .leaf x => by simp [normV, normScalar_idem]
+    | .dict es => by simp [normV, normEs_idem es]
+    | .list xs => by simp [normV, normXs_idem xs]
+  /-- `_retype_values` applied twice is `_retype_values` -/
+  theorem normEs_idem : ∀ es : Entries, normEs (normEs es) = normEs es
+    | [] => by simp [normEs]
+    | (k, v) :: es => by simp [normEs, normV_idem v, normEs_idem es]
+  theorem normXs_idem : ∀ xs : List Val, normXs (normXs xs) = normXs xs
+    | [] => by simp [normXs]
+    | v :: xs => by simp [normXs, normV_idem v, normXs_idem xs]
+end
+
+/-! ## (b) route 1 : `NativeParser.parse_string(NativeFormatter.to_string(d))` -/
+
+/-- **C01, route 1** (formatter + parser on strings): the text the native writer produces for a dict of the value
+    domain is read back, with `comments` on or off, as the dict with the documented element-type normalisation and
+    empty side tables.  This is `C01_roundtrip_string` (Props/C02main.lean) under its route name. -/
+theorem C01_roundtrip_route1 {es : Entries} {c : Counter} (comments : Bool) (dir : Str) :
+    DomC01 .native es = true → DocKeysAbsent' es →
+    C02.countQuotedEs (srcOfEs .native es) ≤ Gen.counterLimit + 1 → C13.ValidCounter Gen.counterLimit c →
+    ∃ c', parseNative comments dir c (fmtPlain .native es) = .ok ({ data := normEs es }, c') :=
+  C01_roundtrip_string comments dir
+
+/-! ## (c) route 2 : `DictWriter.write(d, f, mode)` then `DictReader.read(f)` -/
+
+/-- a dict of the value domain, normalised, has no placeholder key and unique keys at every level -/
+theorem norm_invariants {es : Entries} (h : DomC01 .native es = true) :
+    C07.NoPhEs (normEs es) ∧ NodupKeysV (.dict (normEs es)) := by
+  obtain ⟨hwf, hden, _⟩ := C01_writer h
+  rw [← hden]
+  exact ⟨C02.den_noPh hwf, C02.den_nodup _⟩
+
+theorem fs_get_single (p : Comps) (b : FileBody) : FS.get [(p, b)] p = some b := by
+  simp [FS.get, List.find?]
+
+/-- `DictReader.read` of a file that holds the writer's text for a normalised dict `e` of the value domain -/
+theorem read_written {e : Entries} {c : Counter} (ev : Str → EvalResult) (target : Comps)
+    (hdom : DomC01 .native e = true) (hnorm : normEs e = e) (hd : DocKeysAbsent' e)
+    (hn : C02.countQuotedEs (srcOfEs .native e) ≤ Gen.counterLimit + 1) (hc : C13.ValidCounter Gen.counterLimit c)
+    (hj : isJsonPath target = false) (hx : isXmlPath target = false) (hr : resolveSpelled target = target) :
+    ∃ c', readFile ev [(target, .native (fmtPlain .native e))] {} c target = .ok (.ok { data := e } c') := by
+  obtain ⟨c', hparse⟩ := C01_roundtrip_string (c := c) true (pathStr target.dropLast) hdom hd hn hc
+  rw [hnorm] at hparse
+  have hinv := norm_invariants hdom
+  rw [hnorm] at hinv
+  obtain ⟨hmi, hev⟩ := read_stages_plain ev [(target, .native (fmtPlain .native e))] true e target.dropLast c'
+    hinv.1 hinv.2
+  refine ⟨c', ?_⟩
+  have hpf : parseFile [(target, .native (fmtPlain .native e))] true c target = .ok ({ data := e }, c') := by
+    simp only [parseFile, hx, hr, fs_get_single, hj, hparse]
+    rfl
+  simp only [readFile, hpf, bind, Except.bind, pure, Except.pure]
+  simp only [show ({} : ReadOpts).includes = true from rfl, show ({} : ReadOpts).comments = true from rfl, if_true, hmi,
+    hev]
+  rfl
+
+/-- **C01, route 2** (DictWriter + DictReader on files).  For a dict `d` whose normal form `normEs d` (the writer
+    first re-types strings that spell numbers / booleans / none: `writeStep` starts with `normEs`) lies in the value
+    domain, writing it with any `mode` to a target that does not exist yet writes the plain text of `normEs d`, and
+    reading that file with the default options returns exactly `normEs d`, all side tables empty.
+
+    Hypotheses as in route 1 (documentation keys absent; at most `counterLimit + 1` quoted strings; a counter state that
+    can occur), plus on the path: it is not a `.json` / `.xml` / `.ssd` path (those go to other parsers) and it is
+    already normalised (`resolveSpelled target = target`; the file system of the model is keyed by resolved paths). -/
+theorem C01_roundtrip_file {d : Entries} {c : Counter} (ev : Str → EvalResult) (target : Comps) (mode : Str) :
+    DomC01 .native (normEs d) = true → DocKeysAbsent' d →
+    C02.countQuotedEs (srcOfEs .native (normEs d)) ≤ Gen.counterLimit + 1 → C13.ValidCounter Gen.counterLimit c →
+    isJsonPath target = false → isXmlPath target = false → resolveSpelled target = target →
+    writeStep ev .native target none mode false d c = .ok (fmtPlain .native (normEs d), c) ∧
+    ∃ c', readFile ev [(target, .native (fmtPlain .native (normEs d)))] {} c target =
+      .ok (.ok { data := normEs d } c') := by
+  intro hdom hd hn hc hj hx hr
+  refine ⟨rfl, ?_⟩
+  have hd' : DocKeysAbsent' (normEs d) := by
+    intro e he
+    have hk : e.1 ∈ keys d := by rw [← keys_normEs]; exact List.mem_map_of_mem (f := (·.1)) he
+    obtain ⟨e', he', hk'⟩ := List.mem_map.mp hk
+    rw [← hk']; exact hd e' he'
+  exact read_written ev target hdom (normEs_idem d) hd' hn hc hj hx hr
+
+/-- route 2 never fails on the domain -/
+theorem C01_roundtrip_file_never_fails {d : Entries} {c : Counter} (ev : Str → EvalResult) (target : Comps) (mode : Str)
+    (hdom : DomC01 .native (normEs d) = true) (hd : DocKeysAbsent' d)
+    (hn : C02.countQuotedEs (srcOfEs .native (normEs d)) ≤ Gen.counterLimit + 1)
+    (hc : C13.ValidCounter Gen.counterLimit c)
+    (hj : isJsonPath target = false) (hx : isXmlPath target = false) (hr : resolveSpelled target = target) :
+    ∃ t c₁ r, writeStep ev .native target none mode false d c = .ok (t, c₁) ∧
+      readFile ev [(target, .native t)] {} c₁ target = .ok r := by
+  obtain ⟨hw, c', hrd⟩ := C01_roundtrip_file ev target mode hdom hd hn hc hj hx hr
+  exact ⟨_, _, _, hw, hrd⟩
